@@ -63,6 +63,7 @@ type qGen struct {
 	r     *rand.Rand
 	long  bool
 	tails map[int]string
+	used  []int
 }
 
 func (g *qGen) next() string {
@@ -71,6 +72,12 @@ func (g *qGen) next() string {
 	if r.Intn(10) < 3 {
 		k = r.Intn(100001)
 	}
+	reused := false
+	if len(g.used) > 0 && r.Intn(4) == 0 {
+		k = g.used[r.Intn(len(g.used))] // the same number again, possibly spelled differently
+		reused = true
+	}
+	g.used = append(g.used, k)
 	if k == 100000 {
 		switch r.Intn(4) {
 		case 0:
@@ -99,6 +106,11 @@ func (g *qGen) next() string {
 	frac += tail
 	// spelling: trailing zeros trimmed or padded
 	frac = strings.TrimRight(frac, "0")
+	if reused && !g.long && r.Intn(3) == 0 {
+		if n := 16 + r.Intn(3); n > len(frac) {
+			frac += strings.Repeat("0", n-len(frac))
+		}
+	}
 	switch r.Intn(4) {
 	case 0:
 		if n := g.zeros(len(frac)); n > len(frac) {
@@ -131,6 +143,9 @@ func (g *qGen) zeros(min int) int {
 		return g.length()
 	}
 	n := min + g.r.Intn(4)
+	if g.r.Intn(10) == 0 {
+		n = 15 + g.r.Intn(4) // 15-18 digits still fit a 64-bit accumulator but not a float64 mantissa
+	}
 	if n > 18 {
 		n = 18
 	}
